@@ -95,7 +95,7 @@ func VerifC18_WholeSimulationHasNoSideEffects() {
 	kc.Pools = append(kc.Pools, pool)
 
 	full := corev1.ResourceList{corev1.ResourceCPU: resource.MustParse("8"), corev1.ResourceMemory: resource.MustParse("8Gi"), corev1.ResourcePods: resource.MustParse("110")}
-	otherAlloc := corev1.ResourceList{corev1.ResourceCPU: verifrt.Quantity("other.cpu", 0, 8000), corev1.ResourceMemory: resource.MustParse("8Gi"), corev1.ResourcePods: resource.MustParse("110")}
+	otherAlloc := corev1.ResourceList{corev1.ResourceCPU: verifrt.MilliQuantity("other.cpu", 0, 8000), corev1.ResourceMemory: resource.MustParse("8Gi"), corev1.ResourcePods: resource.MustParse("110")}
 	node1, nc1 := uNode("node-1", "verif://i-1", full, now)
 	node2, nc2 := uNode("node-2", "verif://i-2", otherAlloc, now)
 	kc.Claims = append(kc.Claims, nc1, nc2)
@@ -108,7 +108,7 @@ func VerifC18_WholeSimulationHasNoSideEffects() {
 		p.Name, p.Namespace = name, "default"
 		p.UID = k8stypes.UID("uid-" + name)
 		p.OwnerReferences = []metav1.OwnerReference{{APIVersion: "apps/v1", Kind: "ReplicaSet", Name: "rs"}}
-		p.Spec.Containers = []corev1.Container{{Name: "main", Resources: corev1.ResourceRequirements{Requests: corev1.ResourceList{corev1.ResourceCPU: verifrt.Quantity(name+".cpu", 1, 8000)}},
+		p.Spec.Containers = []corev1.Container{{Name: "main", Resources: corev1.ResourceRequirements{Requests: corev1.ResourceList{corev1.ResourceCPU: verifrt.MilliQuantity(name+".cpu", 1, 8000)}},
 			Ports: []corev1.ContainerPort{{HostPort: 8080, ContainerPort: 8080, Protocol: corev1.ProtocolTCP}}}}
 		if nodeName == "" {
 			p.Status.Phase = corev1.PodPending
